@@ -941,6 +941,28 @@ Proof.
   - exact H.
 Qed.
 
+(* the part of a step after the due timers have fired *)
+Definition step_event (c : config) (s0 : st) (e : event) (now : N) : st :=
+  match e with
+  | EvTick => s0
+  | EvRequest ct rid body =>
+    let (s1, ok) := send_request c s0 ct true rid body now in
+    if ok then s1 else emit s1 (OEvent (HRequestFailed rid ERR_SELF_REQUEST))
+  | EvResponse na rid rb => send_response c s0 na rid rb
+  | EvWhoAreYou na n known => send_challenge c s0 na n known now
+  | EvInbound from p =>
+    match p with
+    | PWho n idn seq cd => handle_challenge c s0 from n seq cd now
+    | PHs src n aad sg eph eph_ok rec ct => handle_auth_message c s0 (src, from) n aad sg eph eph_ok rec ct now
+    | PMsg src n aad ct => handle_message c s0 (src, from) n aad ct now
+    end
+  end.
+Lemma step_unfold : forall c h e now d,
+  step c h e now d =
+  (hs (step_event c (fire_due c {| hs := h; dr := d; outs := [] |} now TICK_FUEL) e now),
+   outs (step_event c (fire_due c {| hs := h; dr := d; outs := [] |} now TICK_FUEL) e now)).
+Proof. reflexivity. Qed.
+
 Definition fixed_cfg (c : config) : Prop :=
   fix_d1 c = true /\ fix_d2a c = true /\ fix_d2b c = true /\ fix_d6 c = true.
 
